@@ -78,6 +78,15 @@ def sessionOp (st : DState) (op : String) (args : List String) : Option (DState 
     match parseOp? s args with
     | none => some (st, bad)
     | some o =>
+      -- windows that make the loops of a strategy overwrite each other (a_l + a_r > n: only reachable through
+      -- floating-point artefacts of the adaptive split) are outside the closed-form model
+      let unmodelled : Bool := match o with
+        | .recreate strategy _ n aL aR bL bR =>
+          let w : Rfa.Windows := { aL := fun k => aL.getD k 0, aR := fun k => aR.getD k 0,
+                                   bL := fun k => bL.getD k 0, bR := fun k => bR.getD k 0 }
+          strategy != "pc" && 2 ≤ n && !Rfa.windowsOk w s.x.length n.toNat
+        | _ => false
+      if unmodelled then some (st, "unmodelled") else
       let r := Weaver.step s o
       let out := match r.err with
         | none => "ok " ++ dumpState r.state
